@@ -96,7 +96,7 @@ class C09(Property):
 
         # ---- read side -------------------------------------------------------------------------
         # from_path on files that open but cannot be read (the file system itself is the faulty reader)
-        for what in ("mem", "dir"):
+        for what in ("mem", "dir", "full"):
             cases.append(Case("pathfault " + what, corr=False, tags=("read", "from_path-unreadable")))
         for f in bundled_files():
             data = open(f, "rb").read()
